@@ -353,7 +353,8 @@ def check_C08(tier, seed):
 
 
 def check_C16(tier, seed):
-    return run_ref_property("C16", tier, seed, cores.budget_catalogue(), ["C16"], 2, 3, tq=120, tt=1800,
+    lrs = [g for g in cores.lr_catalogue() if g["name"] in (("lr_direct", "lr_indirect") if tier == "quick" else ("lr_direct", "lr_two", "lr_nest", "lr_indirect", "lr_indirect2", "lr_postfix"))]
+    return run_ref_property("C16", tier, seed, cores.budget_catalogue(), ["C16"], 2, 3, tq=120, tt=1800, extra=[(g, "lr") for g in lrs],
                             flagsets_q=("std",), flagsets_t=("std", "lr"), max_steps=300_000, rnd=(8, 80, ("throw", "state")),
                             bounds_extra={"budget": "symbolic, 1..24 (1..12 for the non-terminating grammars)", "Memoize": "symbolic"})
 
